@@ -63,7 +63,7 @@ def parse_races(text):
         parts = re.split(r"\n\n", body)
         a = frames(parts[0]) if parts else []
         b = frames(parts[1]) if len(parts) > 1 else []
-        res.append({"case": case, "a": a[:6], "b": b[:6], "raw": body[:2500]})
+        res.append({"case": case, "a": a[:14], "b": b[:14], "raw": body[:2500]})
     return res
 
 
@@ -75,6 +75,10 @@ def classify_race(r):
     for x, y in ((r["a"], r["b"]), (r["b"], r["a"])):
         # reader: MarshalJSON fast path -> toString ; writer: parseRaw -> assign
         if len(x) >= 2 and x[0].endswith("toString") and x[1].endswith("MarshalJSON") and has(y, "parseRaw") and y and y[0].endswith(("assign", "parseRaw")):
+            return KF_MARSHAL
+        # the same defect seen one step later: the bytes the unlocked fast path returned alias the freshly built children
+        # (stale isRaw() decision, new p / l), and the harness reading them races with the parser that filled them
+        if has(x, "canonOfMarshalJSON") and has(y, "parseRaw"):
             return KF_MARSHAL
     return None
 
@@ -161,6 +165,27 @@ Eval vm_compute in ("accesses outside the discipline without a justification", f
         if f["thread"] >= 0 and f["op"]["kind"] == "MarshalJSON" and KF_MARSHAL in known and (KF_MARSHAL in seen_known):
             continue  # a torn text from the unlocked fast path (the known defect), only when its race was reported in this run
         bad_fail.append(f)
+
+    # ---- corpus first: minimized earlier failures (*.case.json), each replayed 30 times
+    cdir = os.path.join(c.ROOT, "corpus", "C16")
+    for fn in sorted(os.listdir(cdir)) if os.path.isdir(cdir) else []:
+        if not fn.endswith(".case.json"):
+            continue
+        rcc, outc = run_harness(hb, ["-mode", "replay", "-case", os.path.join(cdir, fn), "-reps", "30", "-out", os.path.join(work, "corpus.json")], 120)
+        cr = parse_races(outc)
+        crep = json.load(open(os.path.join(work, "corpus.json"))) if rcc in (0, 66) and os.path.exists(os.path.join(work, "corpus.json")) else {"failures": [{"thread": -1, "op": None, "got": "crash/hang rc=%d" % rcc, "want": "", "case": json.load(open(os.path.join(cdir, fn)))}]}
+        for r in cr:
+            k = classify_race(r)
+            if k and k in known:
+                seen_known.add(k)
+            else:
+                r["case"] = -2
+                cases[-2] = json.load(open(os.path.join(cdir, fn)))
+                bad_races.append(r)
+        for f in crep["failures"]:
+            if f["thread"] >= 0 and f["op"] and f["op"]["kind"] == "MarshalJSON" and KF_MARSHAL in seen_known:
+                continue
+            bad_fail.append(f)
 
     # ---- the recorded witnesses, replayed on the implementation
     dl_f = os.path.join(work, "deadlock-case.json")
